@@ -80,3 +80,38 @@ def shrink_list(items: list, fails, max_tests: int = 150) -> list:
         if not progressed or chunk > 1:
             chunk //= 2
     return cur
+
+
+NS_PREFIXES = ["", "ex", "v", "é", "p1", "p2", "long-prefix", "x_y"]
+
+
+def bindings(rng: random.Random, vocab_ns: list | None = None, k: int | None = None) -> list:
+    """1:1 ordered binding list (prefix, iri), avoiding rdflib's default prefixes/namespaces."""
+    k = k if k is not None else rng.randint(1, 6)
+    prefixes = rng.sample(NS_PREFIXES, min(k, len(NS_PREFIXES)))
+    pool = list(vocab_ns or gen.NAMESPACES) + ["urn:x:", "nosep", "http://ex.org/ns/a", "http://ex.org/ü/"]
+    iris = rng.sample(pool, min(len(prefixes), len(pool)))
+    return list(zip(prefixes, iris))
+
+
+def serializer_case(rng: random.Random, max_len: int = 50, p_rdflib: float = 0.4,
+                    p_ns: float = 0.2) -> tuple[dict, list, list]:
+    """A (cfg, statements, namespace bindings) case over both integrations."""
+    if rng.random() < p_rdflib:
+        cfg, stmts, ns = rdflib_case(rng, max_len)
+        store_entries = ("graph_serialize", "grouped_to_file", "stream_frames_store")
+    else:
+        cfg, stmts, ns = generic_case(rng, max_len)
+        store_entries = ("grouped_to_file", "stream_frames_sink")
+    if rng.random() < p_ns and cfg["entry"] in store_entries:
+        ns = bindings(rng)
+        cfg["ns"] = True
+        n, p, d = cfg["preset"]
+        np_, nn, nd = gen.need_of(stmts, cfg["physical"], p > 0, [("ns", a, b) for a, b in ns])
+        cfg["preset"] = (max(n, nn, 8), max(p, np_) if p else 0, d)
+    return cfg, stmts, ns
+
+
+def input_is_ordered(cfg: dict) -> bool:
+    """Does the caller define a statement *sequence* (vs. an rdflib store's set)?"""
+    return cfg["integration"] == "generic"
